@@ -598,32 +598,47 @@ impl LuaModuleIndex {
 
 impl LuaIndex for LuaModuleIndex {
     fn remove(&mut self, file_id: FileId) {
-        let (mut parent_id, mut child_id) =
-            if let Some(module_info) = self.file_module_map.remove(&file_id) {
-                let module_id = module_info.module_id;
-                let node = match self.module_nodes.get_mut(&module_id) {
-                    Some(node) => node,
-                    None => return,
-                };
-                node.file_ids.retain(|id| *id != file_id);
-                if node.file_ids.is_empty() && node.children.is_empty() {
-                    (node.parent, Some(module_id))
-                } else {
-                    (None, None)
-                }
-            } else {
-                (None, None)
-            };
-
-        if parent_id.is_none() || child_id.is_none() {
+        let Some(module_info) = self.file_module_map.remove(&file_id) else {
             return;
+        };
+
+        // drop the file from the fuzzy-name buckets first: the tree pruning below has early exits
+        let mut module_name = None;
+        for (name, file_ids) in &self.module_name_to_file_ids {
+            if file_ids.contains(&file_id) {
+                module_name = Some(name.clone());
+                break;
+            }
+        }
+        if let Some(module_name) = module_name
+            && let Some(file_ids) = self.module_name_to_file_ids.get_mut(&module_name)
+        {
+            file_ids.retain(|id| *id != file_id);
+            if file_ids.is_empty() {
+                self.module_name_to_file_ids.remove(&module_name);
+            }
         }
 
-        while let Some(id) = parent_id {
-            let child_module_id = match child_id {
-                Some(id) => id,
-                None => break,
+        let module_id = module_info.module_id;
+        let mut parent_id = {
+            let node = match self.module_nodes.get_mut(&module_id) {
+                Some(node) => node,
+                None => return,
             };
+            node.file_ids.retain(|id| *id != file_id);
+            if !node.file_ids.is_empty() || !node.children.is_empty() {
+                return;
+            }
+            node.parent
+        };
+
+        // the emptied node itself is dropped as well, not only unlinked from its parent
+        if module_id != self.module_root_id {
+            self.module_nodes.remove(&module_id);
+        }
+
+        let mut child_module_id = module_id;
+        while let Some(id) = parent_id {
             let node = match self.module_nodes.get_mut(&id) {
                 Some(node) => node,
                 None => break,
@@ -636,33 +651,11 @@ impl LuaIndex for LuaModuleIndex {
             }
 
             if node.file_ids.is_empty() && node.children.is_empty() {
-                child_id = Some(id);
+                child_module_id = id;
                 parent_id = node.parent;
                 self.module_nodes.remove(&id);
             } else {
                 break;
-            }
-        }
-
-        if !self.module_name_to_file_ids.is_empty() {
-            let mut module_name = String::new();
-            for (name, file_ids) in &self.module_name_to_file_ids {
-                if file_ids.contains(&file_id) {
-                    module_name = name.clone();
-                    break;
-                }
-            }
-
-            if !module_name.is_empty() {
-                let file_ids = match self.module_name_to_file_ids.get_mut(&module_name) {
-                    Some(ids) => ids,
-                    None => return,
-                };
-
-                file_ids.retain(|id| *id != file_id);
-                if file_ids.is_empty() {
-                    self.module_name_to_file_ids.remove(&module_name);
-                }
             }
         }
     }
